@@ -85,6 +85,8 @@ def entries(curve, vk, digest, msg):
             return e
         return f
     E.append(Entry("ecdh.pub_bytes", ecdh("load_received_public_key_bytes", True), ECDHSET, lambda e: e.public_key.to_string()))
+    E.append(Entry("ecdh.pub_bytes_nocurve", ecdh("load_received_public_key_bytes", False), ECDHSET, lambda e: e.public_key.to_string()))
+    E.append(Entry("ecdh.priv_bytes_nocurve", ecdh("load_private_key_bytes", False), ECDHSET, lambda e: e.private_key.to_string()))
     E.append(Entry("ecdh.pub_der", ecdh("load_received_public_key_der", True), ECDHSET, lambda e: e.public_key.to_string()))
     E.append(Entry("ecdh.pub_pem", ecdh("load_received_public_key_pem", False), ECDHSET, lambda e: e.public_key.to_string()))
     E.append(Entry("ecdh.priv_bytes", ecdh("load_private_key_bytes", True), ECDHSET, lambda e: e.private_key.to_string()))
@@ -187,13 +189,13 @@ def material(curve, rng):
     rb, sb = r.to_bytes(L, "big"), s.to_bytes(L, "big")
     M = {
         "pub_raw": (vk.to_string("raw"), ["vk.from_string", "ecdh.pub_bytes"]),
-        "pub_unc": (vk.to_string("uncompressed"), ["vk.from_string", "ecdh.pub_bytes"]),
+        "pub_unc": (vk.to_string("uncompressed"), ["vk.from_string", "ecdh.pub_bytes", "ecdh.pub_bytes_nocurve"]),
         "pub_cmp": (vk.to_string("compressed"), ["vk.from_string", "ecdh.pub_bytes"]),
         "pub_hyb": (vk.to_string("hybrid"), ["vk.from_string", "ecdh.pub_bytes"]),
         "pub_der": (vk.to_der(), ["vk.from_der", "ecdh.pub_der"]),
         "pub_der_cmp": (vk.to_der("compressed"), ["vk.from_der", "ecdh.pub_der"]),
         "pub_pem": (vk.to_pem(), ["vk.from_pem", "ecdh.pub_pem"]),
-        "priv_raw": (sk.to_string(), ["sk.from_string", "ecdh.priv_bytes"]),
+        "priv_raw": (sk.to_string(), ["sk.from_string", "ecdh.priv_bytes", "ecdh.priv_bytes_nocurve"]),
         "priv_der": (sk.to_der(), ["sk.from_der", "ecdh.priv_der"]),
         "priv_p8": (sk.to_der(format="pkcs8"), ["sk.from_der", "ecdh.priv_der"]),
         "priv_p8_v0": (R.pkcs8(tuple(curve.oid), R.ec_private_key(sk.to_string(), None, vk.to_string("uncompressed")), 0), ["sk.from_der", "ecdh.priv_der"]),
